@@ -1,1 +1,95 @@
-//! harness package htime
+//! harness package htime (C09: timers). Shared helpers of the timer binaries.
+use std::{
+    sync::{
+        Arc,
+        atomic::{AtomicU64, Ordering},
+    },
+    task::Wake,
+    time::{Duration, Instant},
+};
+
+use compio_driver::{DriverType, ProactorBuilder};
+use compio_runtime::Runtime;
+
+/// A waker that only counts how often it was invoked.
+pub struct CountWaker(pub AtomicU64);
+
+impl CountWaker {
+    pub fn new() -> Arc<Self> {
+        Arc::new(Self(AtomicU64::new(0)))
+    }
+
+    pub fn count(&self) -> u64 {
+        self.0.load(Ordering::SeqCst)
+    }
+}
+
+impl Wake for CountWaker {
+    fn wake(self: Arc<Self>) {
+        self.0.fetch_add(1, Ordering::SeqCst);
+    }
+
+    fn wake_by_ref(self: &Arc<Self>) {
+        self.0.fetch_add(1, Ordering::SeqCst);
+    }
+}
+
+pub fn driver_name(t: DriverType) -> &'static str {
+    match t {
+        DriverType::Poll => "poll",
+        DriverType::IoUring => "iour",
+        _ => "other",
+    }
+}
+
+/// Build a runtime on the requested driver; None if that driver is not available here.
+pub fn build_runtime(t: DriverType) -> Option<Runtime> {
+    let mut pb = ProactorBuilder::new();
+    pb.driver_type(t).capacity(64);
+    let rt = Runtime::builder().with_proactor(pb).build().ok()?;
+    if rt.driver_type() == t { Some(rt) } else { None }
+}
+
+/// Sleep (coarse) and then spin (fine) until `target`; returns the clock reading after it.
+pub fn wait_until(target: Instant) -> Instant {
+    loop {
+        let now = Instant::now();
+        if now >= target {
+            return now;
+        }
+        let left = target - now;
+        if left > Duration::from_micros(400) {
+            std::thread::sleep(left - Duration::from_micros(300));
+        } else {
+            std::hint::spin_loop();
+        }
+    }
+}
+
+/// Watchdog: if `beat` does not change for `limit`, print a hang problem and a summary and leave.
+pub fn spawn_watchdog(beat: Arc<AtomicU64>, limit: Duration, site: &'static str) {
+    std::thread::spawn(move || {
+        let mut last = beat.load(Ordering::SeqCst);
+        let mut since = Instant::now();
+        loop {
+            std::thread::sleep(Duration::from_millis(200));
+            let cur = beat.load(Ordering::SeqCst);
+            if cur != last {
+                last = cur;
+                since = Instant::now();
+            } else if since.elapsed() > limit {
+                let sig = serde_json::json!({"site": site, "kind": "hang"});
+                println!(
+                    "{}",
+                    serde_json::json!({"type": "hang", "sig": sig, "desc": format!("no progress for {:?} at heartbeat {cur} (a step of the code under test blocked)", limit), "case": null, "step": 0})
+                );
+                println!(
+                    "{}",
+                    serde_json::json!({"type": "summary", "cases": 0, "steps": 0, "aborted": true,
+                        "problems": [{"type": "hang", "sig": sig, "count": 1}]})
+                );
+                std::process::exit(0);
+            }
+        }
+    });
+}
